@@ -145,7 +145,7 @@ type repoWorld struct {
 	ids     map[string]int // location identifier -> loc
 	pem     bool
 	// ground truth kept by the harness for the oracles
-	served map[int]repoOp      // loc -> last serve
+	served map[int]repoOp          // loc -> last serve
 	docs   map[int]map[int]repoDoc // loc -> number -> document ever served there
 }
 
